@@ -170,6 +170,28 @@ func Exec(schema z.ZogSchema, validate bool, data any, dest reflect.Value, rec *
 		} else {
 			l = s.Parse(data, dp.(*timeT), opts...)
 		}
+	case *z.Custom[string]:
+		// CustomFunc as the execution root (its own typed Parse / Validate)
+		isList = true
+		if validate {
+			l = s.Validate(dp.(*string), opts...)
+		} else {
+			l = s.Parse(data, dp.(*string), opts...)
+		}
+	case *z.PreprocessSchema[string, string]:
+		// Preprocess as the execution root: Parse takes the function's argument type
+		isList = true
+		ds, ok := data.(string)
+		if validate || !ok {
+			panic(fmt.Sprintf("Exec: Preprocess[string,string] root needs Parse and a string, got validate=%v %T", validate, data))
+		}
+		l = s.Parse(ds, dp.(*string), opts...)
+	case *z.PreprocessSchema[*string, string]:
+		isList = true
+		if !validate {
+			panic("Exec: Preprocess[*string,string] root is the Validate form")
+		}
+		l = s.Validate(dp.(*string), opts...)
 	default:
 		panic(fmt.Sprintf("Exec: unsupported top-level schema %T", schema))
 	}
